@@ -33,7 +33,7 @@ func intsOf(v *claircore.Version) string {
 
 func nverWords(v *claircore.Version) string { return hexs(v.Kind) + " " + intsOf(v) }
 
-var nvKinds = []string{"semver", "semver", "semver", "pep440", "", "x"}
+var nvKinds = []string{"semver", "semver", "semver", "pep440", "", "x", "s\u00e9mver", "\xff"}
 
 func genNVersion(rnd *hx.Rand, kind string) claircore.Version {
 	v := claircore.Version{Kind: kind}
